@@ -73,7 +73,8 @@ class Soap12(Soap11):
         return value, faultstrings
 
     def generate_faultcode(self, element):
-        nsmap = element.nsmap
+        # the prefix the sender chose for the envelope namespace is arbitrary.
+        nsmap = {'soap': self.ns_soap_env}
         faultcode = []
         faultcode.append(element.find('soap:Code/soap:Value', namespaces=nsmap).text)
         subcode = element.find('soap:Code/soap:Subcode', namespaces=nsmap)
@@ -141,7 +142,7 @@ class Soap12(Soap11):
         return self._fault_to_parent_impl(ctx, cls, inst, parent, ns, subelts)
 
     def fault_from_element(self, ctx, cls, element):
-        nsmap = element.nsmap
+        nsmap = {'soap': self.ns_soap_env}
 
         code = self.generate_faultcode(element)
         reason = element.find("soap:Reason/soap:Text", namespaces=nsmap).text.strip()
